@@ -474,6 +474,34 @@ func hexString(s string) string {
 	return "<" + strings.Join(valStrings, "") + ">"
 }
 
+// toUnicodeRangeChunks splits the bfrange entries into sections.  A section
+// has at most chunkSize entries.  In addition, it is cut early enough for the
+// operand stack of a PostScript interpreter (500 objects in level 1
+// interpreters and in seehuhn.de/go/postscript): between beginbfrange and
+// endbfrange every entry leaves three operands on the stack, and while the
+// value array of the next entry is being built its mark and elements are on
+// the stack as well.
+func toUnicodeRangeChunks(x []ToUnicodeRange) [][]ToUnicodeRange {
+	const maxOperands = 400 // leaves room below the limit of 500
+
+	var res [][]ToUnicodeRange
+	start := 0
+	for i, r := range x {
+		need := 3*(i-start) + 3
+		if len(r.Values) > 1 {
+			need += len(r.Values)
+		}
+		if i > start && (i-start >= chunkSize || need > maxOperands) {
+			res = append(res, x[start:i])
+			start = i
+		}
+	}
+	if start < len(x) {
+		res = append(res, x[start:])
+	}
+	return res
+}
+
 // TODO(voss): once https://github.com/pdf-association/pdf-issues/issues/344
 // is resoved, reconsider CIDSystemInfo.
 var toUnicodeTmplNew = template.Must(template.New("cmap").Funcs(template.FuncMap{
@@ -489,7 +517,7 @@ var toUnicodeTmplNew = template.Must(template.New("cmap").Funcs(template.FuncMap
 		val := hexString(s.Value)
 		return fmt.Sprintf("<%x> %s", s.Code, val)
 	},
-	"RangeChunks": chunks[ToUnicodeRange],
+	"RangeChunks": toUnicodeRangeChunks,
 	"Range": func(r ToUnicodeRange) string {
 		if len(r.Values) == 1 {
 			return fmt.Sprintf("<%x> <%x> %s", r.First, r.Last, hexString(r.Values[0]))
